@@ -2927,6 +2927,9 @@ class Transport(threading.Thread, ClosingContextManager):
         self.server_extensions = extensions
 
     def _parse_newkeys(self, m):
+        if self.kex_engine is None or self.K is None:
+            # Nothing was negotiated that these keys could come from.
+            raise SSHException("Received NEWKEYS outside of a key exchange")
         self._log(DEBUG, "Switch to new keys ...")
         self._activate_inbound()
         # can also free a bunch of stuff here
